@@ -59,7 +59,10 @@ func foldHeader(h http.Header, skip func(string) bool) string {
 		if skip != nil && skip(ck) {
 			continue
 		}
-		m[ck] = append(m[ck], v...)
+		for _, x := range v {
+			// (a line break inside a value is compared as the space a header writer turns it into)
+			m[ck] = append(m[ck], strings.NewReplacer("\r", " ", "\n", " ").Replace(x))
+		}
 	}
 	keys := make([]string, 0, len(m))
 	for k := range m {
@@ -102,6 +105,13 @@ func init() {
 		var trailers []c05KV
 		if tp != vanguard.ProtocolREST {
 			trailers = c05Pick(c, "trailer", 2)
+		}
+		if tp == vanguard.ProtocolConnect && b.Client.shape != "unary" && len(trailers) > 0 && c.Choose("trailer-value-with-line-break", 2) == 1 {
+			// end-of-stream metadata is JSON: a value can hold CR LF there. On the way to a client whose
+			// trailers are header lines it may be sanitised (compared modulo that), but it must stay ONE value
+			// and must not become further lines.
+			trailers[0].v = []string{"disk failure\r\ngrpc-status: 0"}
+			c.Attr("~trailer-value", "contains CR LF")
 		}
 		style := c.Choose("trailer-style", 4) // 0 TrailerPrefix, 1 declared (canonical, one per line), 2 declared in lower case, 3 declared as one "A, B" list
 		dup := false
